@@ -79,12 +79,17 @@ def restrict_frame(frame):
         c2 = restrict_col(c)
         base = c2['name']
         i = 1
-        while c2['name'].lower() in seen or not c2['name'].strip():
+        while sql_fold(c2['name']) in seen or not c2['name'].strip():
             i += 1
             c2['name'] = '%s_%d' % (base.strip() or 'col', i)
         seen.add(c2['name'].lower())
         cols.append(c2)
     return {'n': frame['n'], 'cols': cols}
+
+
+def sql_fold(name):
+    """SQLite folds only ASCII letters when it compares identifiers."""
+    return ''.join(ch.lower() if ch.isascii() else ch for ch in name)
 
 
 def valid_for_sqlite(frame):
@@ -100,10 +105,10 @@ def valid_for_sqlite(frame):
                         'decl', '')) > 1:
                 return False
         nm = c['name']
-        if '"' in nm or '\x00' in nm or nm.lower() in seen or (
+        if '"' in nm or '\x00' in nm or sql_fold(nm) in seen or (
                 not nm.strip()):
             return False
-        seen.add(nm.lower())
+        seen.add(sql_fold(nm))
         for v in c['cells']:
             if v is None:
                 continue
